@@ -23,7 +23,7 @@ pub mod arm;
 #[cfg(kani)]
 mod arms;
 #[cfg(kani)]
-mod c01;
+pub mod c01;
 #[cfg(kani)]
 mod c02;
 #[cfg(kani)]
@@ -32,6 +32,8 @@ mod c03;
 mod c04;
 #[cfg(kani)]
 mod c05;
+#[cfg(kani)]
+mod c06;
 #[cfg(kani)]
 mod c12;
 #[cfg(kani)]
